@@ -3,7 +3,7 @@
    M_frame_*  are the IMPLEMENTATION MODELS (the block walks of SF.BlocksUpdate under the Frame constructor's
    shape checks).  Row keys, label deletion and cell conversion are NumPy's (np.delete, a[k] = v, astype):
    they are the simple list functions below, on both sides alike.  Models only, no proofs. *)
-Require Import SF.Prelude SF.PySlice SF.Dtype SF.Value SF.Blocks SF.UpdateSpec SF.BlocksUpdate.
+Require Import SF.Prelude SF.PySlice SF.Dtype SF.Value SF.Blocks SF.UpdateSpec SF.BlocksUpdate Gen.Gen_c08.
 
 Definition zlen {B} (l : list B) : Z := Z.of_nat (length l).
 Definition zrange (n : Z) : list Z := map Z.of_nat (seq 0 (Z.to_nat n)).
@@ -233,7 +233,7 @@ Definition M_frame_assign_unit (f : mframe) (rk ck : option ckey) (as_array is_s
   | Err e => Err e
   | Ok rps =>
       let k := match ck with
-               | Some k => ascending_key k (zlen (mf_columns f)) as_array
+               | Some k => if assign_iloc_column_key_made_ascending then ascending_key k (zlen (mf_columns f)) as_array else k
                | None => CAll
                end in
       match M_assign_unit_blocks is_slice sliceable
@@ -271,7 +271,7 @@ Definition S_frame_astype (f : oframe) (ck : ckey) (d : dtype) : res oframe :=
   end.
 
 Definition M_frame_astype (f : mframe) (ck : ckey) (d : dtype) : res (oframe * layout) :=
-  match M_astype_blocks d (fun _ => map (conv_val d)) (mf_blocks f) ck with
+  match M_astype_blocks d (fun _ => map (conv_val d)) (match ck with CInt _ => true | _ => false end) (mf_blocks f) ck with
   | Err e => Err e
   | Ok t' => frame_init (mf_index f) (mf_columns f) t' (zlen (mf_index f)) (mf_name f)
   end.
@@ -288,3 +288,42 @@ Definition M_frame_insert (f : mframe) (key : Z) (labels : list val) (ins : tb v
 
 Definition S_series_insert (s : oseries) (key : Z) (labels vals : list val) : list val * list val :=
   (S_insert_at (os_index s) key labels, S_insert_at (os_values s) key vals).
+
+(* =================== bloc assignment (2-D Boolean selector) =================== *)
+(* kmask[j][i] = the key, mask[j][i] = the key restricted to the cells the (labelled) value has, vals[j][i] for
+   column j, row i; SPEC as a relation: labels and name kept, a cell holds vals where the mask is True and its old
+   value elsewhere; a column without any True in the KEY is identical, dtype included *)
+Definition S_frame_bloc_ok (f : oframe) (kmask mask : list (list bool)) (vals : list (list val)) (out : oframe) : bool :=
+  let nr := zlen (of_index f) in
+  let nc := zlen (of_columns f) in
+  vlist_eqb (of_index f) (of_index out) && vlist_eqb (of_columns f) (of_columns out) &&
+  val_eqb (of_name f) (of_name out) && (zlen (of_cols out) =? nc) &&
+  forallb (fun j =>
+    let old := nthz (of_cols f) j (DObj, []) in
+    let new := nthz (of_cols out) j (DObj, []) in
+    let mk := nthz mask j [] in
+    if existsb (fun b : bool => b) (nthz kmask j [])
+    then (zlen (snd new) =? nr) &&
+         forallb (fun i => cell_same (nthz (snd new) i VNone)
+                             (if nthz mk i false then nthz (nthz vals j []) i VNone else nthz (snd old) i VNone)) (zrange nr)
+    else col_eqb old new) (zrange nc).
+
+(* =================== insert, as a relation (the dtype of an inserted, label-aligned column is not fixed) =================== *)
+Definition S_frame_insert_ok (f : oframe) (key : Z) (labels : list val) (ins : list (list val)) (out : oframe) : bool :=
+  let k := Z.to_nat key in
+  let n := length labels in
+  vlist_eqb (of_index f) (of_index out) && val_eqb (of_name f) (of_name out) &&
+  vlist_eqb (S_insert_at (of_columns f) key labels) (of_columns out) &&
+  list_eqb col_eqb (firstn k (of_cols f)) (firstn k (of_cols out)) &&
+  list_eqb (list_eqb cell_same) ins (map snd (firstn n (skipn k (of_cols out)))) &&
+  list_eqb col_eqb (skipn k (of_cols f)) (skipn (k + n) (of_cols out)).
+
+Definition S_series_insert_ok (s : oseries) (key : Z) (labels vals : list val) (out : oseries) : bool :=
+  vlist_eqb (S_insert_at (os_index s) key labels) (os_index out) &&
+  list_eqb cell_same (S_insert_at (os_values s) key vals) (os_values out) && val_eqb (os_name s) (os_name out).
+
+(* Series results up to the dtype / up to the name *)
+Definition oseries_same (a b : oseries) : bool :=
+  vlist_eqb (os_index a) (os_index b) && list_eqb cell_same (os_values a) (os_values b) && val_eqb (os_name a) (os_name b).
+Definition oseries_eqb_noname (a b : oseries) : bool :=
+  vlist_eqb (os_index a) (os_index b) && vlist_eqb (os_values a) (os_values b) && dtype_eqb (os_dtype a) (os_dtype b).
